@@ -85,7 +85,7 @@ def fuzz(ctx, target, k):
         seeds = _seed_dir(ctx, target, rnd, d) if k > 0 else None      # k == 0: empty corpus
         r = fuzzrun.run_target(ctx.build, target, runs, ctx.sub_seed("c19", target, k) % 100000 + 1,
                                corpus_seed_dir=seeds, max_len=4096 if k > 0 else 512, timeout_s=25,
-                               wall_limit=900 if not ctx.thorough else 7200)
+                               wall_limit=900 if not ctx.thorough else 2400)
     finally:
         shutil.rmtree(d, ignore_errors=True)
     sub.evaluations += r["executed"]
